@@ -14,6 +14,8 @@ import (
 	"strings"
 	"sync"
 	"time"
+
+	"reservoir/zzverif/vsched"
 )
 
 // Resp is what a client received for one request.
@@ -147,6 +149,7 @@ type Recorder struct {
 	hijackConn  net.Conn
 	Hijacked    bool
 	FailAfter   int // >=0: client hung up, writes fail after that many body bytes
+	SlowReader  bool
 }
 
 func NewRecorder(method string) *Recorder {
@@ -175,6 +178,9 @@ func (r *Recorder) WriteHeader(code int) {
 func (r *Recorder) Write(p []byte) (int, error) {
 	if !r.wrote {
 		r.WriteHeader(200)
+	}
+	if r.SlowReader {
+		vsched.Yield("client reads a chunk") // a slow client: other threads may run between chunks
 	}
 	if r.status == 204 || r.status == 304 || r.status < 200 {
 		return 0, http.ErrBodyNotAllowed
